@@ -43,10 +43,24 @@ class Gen:
         if k == 3:
             return ('list', self.gen_type(depth - 1))
         if k == 4:
-            return ('map', r.choice([('int',), ('nat',), ('string',), ('bytes',)]), self.gen_type(depth - 1))
+            return ('map', self.gen_key_type(), self.gen_type(depth - 1))
         if k == 5 and depth >= 2:
             return ('lambda', self.gen_type(depth - 2), self.gen_type(depth - 2))
         return r.choice(SIMPLE)
+
+    KEY_LEAVES = [('int',), ('nat',), ('string',), ('bytes',)]
+
+    def gen_key_type(self, depth=2):
+        """key type of a map: a simple comparable type, or a composite one (pair / option / or of key types)"""
+        r = self.rng
+        if depth <= 0 or r.random() < 0.5:
+            return r.choice(self.KEY_LEAVES + ([('bool',)] if depth < 2 else []))
+        k = r.randrange(4)
+        if k <= 1:
+            return ('pair', self.gen_key_type(depth - 1), self.gen_key_type(depth - 1))
+        if k == 2:
+            return ('option', self.gen_key_type(depth - 1))
+        return ('or', self.gen_key_type(depth - 1), self.gen_key_type(depth - 1))
 
     def gen_int(self, nat=False, small=False):
         r = self.rng
@@ -103,22 +117,46 @@ class Gen:
             return self.body_to([t[1]], [t[2]], r.choice([0, 1, 2]), depth=0)
         raise ValueError(t)
 
-    def distinct_sorted_keys(self, kt, n):
+    def gen_key(self, kt):
+        """(sort key, Micheline) of a random value of comparable type kt; sort keys order like Michelson COMPARE"""
         r = self.rng
-        if kt[0] in ('int', 'nat'):
-            ks = set()
-            while len(ks) < n:
-                ks.add(self.gen_int(nat=kt[0] == 'nat', small=r.random() < 0.7))
-            return [{'int': str(k)} for k in sorted(ks)]
-        if kt[0] == 'string':
-            ks = set()
-            while len(ks) < n:
-                ks.add(''.join(r.choice('abc') for _ in range(r.randrange(0, 4))))
-            return [{'string': k} for k in sorted(ks)]
-        ks = set()
-        while len(ks) < n:
-            ks.add(r.bytes_(r.randrange(0, 3)))
-        return [{'bytes': k.hex()} for k in sorted(ks)]
+        p = kt[0]
+        if p in ('int', 'nat'):
+            v = self.gen_int(nat=p == 'nat', small=r.random() < 0.7)
+            return v, {'int': str(v)}
+        if p == 'string':
+            v = ''.join(r.choice('abc') for _ in range(r.randrange(0, 4)))
+            return v.encode(), {'string': v}
+        if p == 'bytes':
+            v = r.bytes_(r.randrange(0, 3))
+            return v, {'bytes': v.hex()}
+        if p == 'bool':
+            v = r.random() < 0.5
+            return v, {'prim': 'True' if v else 'False'}
+        if p == 'pair':
+            (ka, a), (kb, b) = self.gen_key(kt[1]), self.gen_key(kt[2])
+            return (ka, kb), {'prim': 'Pair', 'args': [a, b]}
+        if p == 'option':
+            if r.random() < 0.3:
+                return (0,), {'prim': 'None'}
+            ka, a = self.gen_key(kt[1])
+            return (1, ka), {'prim': 'Some', 'args': [a]}
+        if p == 'or':
+            if r.random() < 0.5:
+                ka, a = self.gen_key(kt[1])
+                return (0, ka), {'prim': 'Left', 'args': [a]}
+            kb, b = self.gen_key(kt[2])
+            return (1, kb), {'prim': 'Right', 'args': [b]}
+        raise ValueError(kt)
+
+    def distinct_sorted_keys(self, kt, n):
+        ks = {}
+        tries = 0
+        while len(ks) < n and tries < 50:   # small key spaces (bool, option bool) may hold fewer than n values
+            tries += 1
+            k, m = self.gen_key(kt)
+            ks.setdefault(k, m)
+        return [ks[k] for k in sorted(ks)]
 
     def default_value(self, t):
         p = t[0]
@@ -298,7 +336,7 @@ class Gen:
         return [{'prim': prim, 'args': [ty_mich(t)]}], [mk(t)] + st
 
     def _empty_map(self, st):
-        k, v = self.rng.choice([('int',), ('nat',), ('string',), ('bytes',)]), self.gen_type(1)
+        k, v = self.gen_key_type(), self.gen_type(1)
         return [{'prim': 'EMPTY_MAP', 'args': [ty_mich(k), ty_mich(v)]}], [('map', k, v)] + st
 
     def _env(self, st):
